@@ -44,7 +44,7 @@ def literal_cases():
         out.append({"src": f, "kind": "flt", "neg": False, "digits": [], "fbits": list(struct.pack("<d", x)) if ok else [0] * 8, "frange": ok, "cs": [], "terminated": True})
     def string(src, kind, content, terminated=True):
         out.append({"src": src, "kind": kind, "neg": False, "digits": [], "fbits": [], "frange": True, "cs": [ord(c) for c in content], "terminated": terminated})
-    contents = ["", "a", "abc", "a b", "\\n", "\\t", "\\b\\f\\r", "a\\nb", "\\\\", "\\\"", "\\'", "\\x", "\\q\\z", "λ", "é", "ü©°ÿ", "a\u0080b", "ñandú ß ×", "日本", "tab\\there", "#nocomment", "//no", "/*no*/", "`", "'", "a\nb"]
+    contents = ["", "a", "abc", "a b", "\\n", "\\t", "\\b\\f\\r", "a\\nb", "\\\\", "\\\"", "\\'", "\\x", "\\q\\z", "λ", "é", "ü©°ÿ", "a\u0080b", "ñandú ß ×", "日本", "tab\\there", "#nocomment", "//no", "/*no*/", "`", "'", "a\nb", "a\r\nb", "\r", "x\r\n\r\ny"]
     for c in contents:
         if '"' not in c.replace('\\"', ""):
             string('"' + c + '"', "quoted", c)
